@@ -240,11 +240,12 @@ func (vc *VC) sentinel(obj *types.Var) (Term, bool) {
 		vc.DeclareFun(name, nil, SIface)
 		vc.axioms = append(vc.axioms, fmt.Sprintf("(not (= (itag %s) 0))", name))
 		vc.axioms = append(vc.axioms, fmt.Sprintf("(< (rid (iref %s)) 0)", name))
+		vc.axioms = append(vc.axioms, fmt.Sprintf("(not (boxedtag (itag %s)))", name))
 		for _, o := range vc.sentinels {
 			vc.axioms = append(vc.axioms, fmt.Sprintf("(distinct %s %s)", name, o))
 		}
 		vc.sentinels = append(vc.sentinels, name)
-		vc.assume("package-level error sentinels (Err*) are immutable, non-nil and pairwise distinct")
+		vc.assume("package-level error sentinels (Err*) are immutable, non-nil, pairwise distinct and of pointer dynamic type (compared by identity)")
 	}
 	return Term{name, SIface}, true
 }
@@ -515,6 +516,14 @@ func (fr *Frame) instr(st *State, b *ssa.BasicBlock, in ssa.Instruction) (bool, 
 		c, err := fr.value(x.Y)
 		if err != nil {
 			return false, fr.unsupportedErr(in, err)
+		}
+		if _, isIface := U(x.X.Type()).(*types.Interface); isIface && a.Sort == SIface && c.Sort == SIface && (x.Op == token.EQL || x.Op == token.NEQ) {
+			eq := fr.ifaceEq(st, x.X, x.Y, a, c)
+			if x.Op == token.NEQ {
+				eq = Not(eq)
+			}
+			def(x, eq)
+			break
 		}
 		r, safe, err := vc.binop(x.Op, a, c, x.X.Type(), x.Y.Type())
 		if err != nil {
@@ -2063,4 +2072,49 @@ func (vc *VC) loopFrameAllowed() (map[Sort][]Term, bool) {
 		}
 	}
 	return vc.rootAllowed, vc.rootAllowed != nil
+}
+
+// ifaceEq is Go's == on two interface values: equal dynamic types and equal dynamic values.
+// Values of pointer-like types are compared by identity; every other value sits in a box and is
+// compared by content. When one side is a conversion of a value of known type the content
+// comparison is exact; otherwise the outcome for two distinct boxes of one type is left open.
+func (fr *Frame) ifaceEq(st *State, X, Y ssa.Value, a, c Term) Term {
+	vc := fr.vc
+	isNilConst := func(v ssa.Value) bool {
+		k, ok := v.(*ssa.Const)
+		return ok && k.Value == nil
+	}
+	if isNilConst(X) || isNilConst(Y) {
+		return Eq(a, c)
+	}
+	sides := []struct {
+		v          ssa.Value
+		self, other Term
+	}{{X, a, c}, {Y, c, a}}
+	for _, sd := range sides {
+		mi, ok := sd.v.(*ssa.MakeInterface)
+		if !ok {
+			continue
+		}
+		T := mi.X.Type()
+		tid := vc.tt.TID(T)
+		if vc.tt.byRef[tid] {
+			return Eq(a, c)
+		}
+		if _, isIface := U(T).(*types.Interface); isIface {
+			continue
+		}
+		v, err := fr.value(mi.X)
+		if err != nil {
+			continue
+		}
+		cont, err := vc.loadAt(st, IRefOf(sd.other), T)
+		if err != nil {
+			continue
+		}
+		return And(Eq(ITag(sd.other), IntLit(int64(tid))), vc.valueEq(cont, v, T))
+	}
+	tagsEq := Eq(ITag(a), ITag(c))
+	boxed := App(SBool, "boxedtag", ITag(a))
+	return Or(Eq(a, c), And(tagsEq, boxed, App(SBool, "ifacevaleq", a, c)))
 }
